@@ -241,6 +241,7 @@ def main():
     ap.add_argument("--jobs", type=int, default=16)
     ap.add_argument("--seed", type=int, default=1)
     ap.add_argument("--out", default=os.path.join(VERIF, "build", "mutation.json"))
+    ap.add_argument("--survivors-of", default="", help="re-run only the survivors recorded in this JSON file")
     a = ap.parse_args()
     base = tempfile.mkdtemp(prefix="rds_mut_")
     try:
@@ -270,6 +271,9 @@ def main():
         for f in srcs:
             muts += mutants_of(os.path.join(REPO, "src", f))
         random.Random(a.seed).shuffle(muts)
+        if a.survivors_of:
+            keep = set((r["file"], r["line"], r["new"]) for r in json.load(open(a.survivors_of))["results"] if r["status"] == "survived")
+            muts = [m for m in muts if (m[0], m[1] + 1, m[3].strip()) in keep]
         if a.max:
             muts = muts[:a.max]
         print("mutants: %d" % len(muts), flush=True)
